@@ -649,7 +649,7 @@ class Interp(object):
             self.depth = 0
             self.trace_count += 1
             if self.trace_count > 20000 or len(outcomes) > max_outcomes:
-                raise AnalysisError('abstract interpretation: too many traces')
+                raise Unmodelled('too many traces (a construct that forks on every step)')
             try:
                 v = make_call(self, st)
                 outcomes.append(Outcome('return', v, st))
@@ -1263,8 +1263,17 @@ class Interp(object):
                 if n > MAX_LOOP:
                     self.imprecise('while loop bound')
                     break
+                notes_before = len(self.state.notes)
                 tv = self.expr(s.test, fr)
                 before = len(self.state.notes) + self._dpos
+                if len(self.state.notes) > notes_before:
+                    # the test itself took a decision on unknown values (e.g. a comparison of linear forms)
+                    decided_iters = getattr(self.state, '_loop_decisions', {})
+                    decided_iters[id(s)] = decided_iters.get(id(s), 0) + 1
+                    self.state._loop_decisions = decided_iters
+                    if decided_iters[id(s)] > 3:
+                        self.imprecise('loop on a symbolic condition (%s)' % src(s.test))
+                        break
                 try:
                     cont = self.truth(tv, src(s.test))
                 except Fork:
